@@ -579,11 +579,11 @@ class ClassModificationArgument(Node):
         )
 
     def __deepcopy__(self, memo):
-        _scope, _deepcp = self.scope, self.__deepcopy__
-        self.scope, self.__deepcopy__ = None, None
-        new = copy.deepcopy(self, memo)
-        self.scope, self.__deepcopy__ = _scope, _deepcp
-        new.scope, new.__deepcopy__ = _scope, _deepcp
+        # The scope is a reference into the instance tree and is shared, not copied
+        new = type(self).__new__(type(self))
+        memo[id(self)] = new
+        for key, value in self.__dict__.items():
+            setattr(new, key, value if key == "scope" else copy.deepcopy(value, memo))
         return new
 
 
@@ -878,15 +878,15 @@ class Class(Node):
         self.initial_equations.remove(e)
 
     def __deepcopy__(self, memo):
-        # Avoid copying the entire tree
-        if self.parent is not None and self.parent not in memo:
+        # Avoid copying the entire tree: a parent that is not being copied itself
+        # is shared. The memo dictionary of copy.deepcopy is keyed by id().
+        if self.parent is not None and id(self.parent) not in memo:
             memo[id(self.parent)] = self.parent
 
-        _deepcp = self.__deepcopy__
-        self.__deepcopy__ = None
-        new = copy.deepcopy(self, memo)
-        self.__deepcopy__ = _deepcp
-        new.__deepcopy__ = _deepcp
+        new = type(self).__new__(type(self))
+        memo[id(self)] = new
+        for key, value in self.__dict__.items():
+            setattr(new, key, copy.deepcopy(value, memo))
         return new
 
     def __repr__(self):
